@@ -384,5 +384,6 @@ RULE = ('Hermitian Hamiltonians of every route (diagonal, quadratic restricted/G
         '{0,1,-2,3}, times {0, +-2^-6, 0.05, -0.3, 0.7, 1, 7.5, -12.25, 40}, unnormalised Gaussian-integer states, '
         'both wavefunction modes, both paths, default route + Taylor + Chebyshev. non-trivial: t != 0 and >= 2 '
         'determinants in the result')
-NOT_PROVED = ['the tail bound of the exact Taylor oracle (scalar series + ||H^k psi|| <= L1^k ||psi||) is evaluated by the '
-              'harness, not yet proved in Coq; closed-form route theorems (block_schrodinger) are Stage B']
+NOT_PROVED = ['the scalar tail bound of the exact Taylor oracle is proved (TaylorTail.v, stated in P_C16); the operator-norm step '
+              '||H^k psi|| <= L1^k ||psi|| is not; the quadratic (orbital-rotation) route has no closed-form theorem: it is tied '
+              'through the exterior-power oracle (kind evolve_ext)']
